@@ -1231,3 +1231,91 @@ func (m *pairModel) isEnforcerDeliver(in ssa.Instruction) bool {
 	}
 	return eng.StaticCallee(call.Common()) == m.enforcerDlv
 }
+
+// ownConnection: every session runs on the connection that was accepted for it. In an accept
+// loop the goroutine that runs a session must not reach its connection through a variable that
+// is shared by all iterations (declared outside the loop, assigned inside it, captured by
+// reference): by the time the goroutine reads it the loop may have accepted the next connection,
+// so two state machines talk on one socket and the earlier client is never served.
+func (c *Ctx) ownConnection(rule, rel string) int {
+	p, r := c.P, c.R
+	r.Rule(rule, "a goroutine started inside a loop captures no connection-typed variable that is declared outside that loop and assigned inside it (each session keeps the connection accepted for it)")
+	n := 0
+	ord := map[string]int{}
+	isConnLike := func(t types.Type) bool {
+		ms := types.NewMethodSet(t)
+		has := func(nm string) bool {
+			for i := 0; i < ms.Len(); i++ {
+				if ms.At(i).Obj().Name() == nm {
+					return true
+				}
+			}
+			return false
+		}
+		return has("Read") && has("Write") && has("Close")
+	}
+	for _, fn := range pkgFuncs(p, rel) {
+		fn := fn
+		eng.EachInstr(fn, func(in ssa.Instruction) {
+			g, ok := in.(*ssa.Go)
+			if !ok {
+				return
+			}
+			hs := loopHeaders(g.Block())
+			if len(hs) == 0 {
+				// one step of an accept loop in a function of its own (for s.acceptNext(…) { … }):
+				// what the goroutine gets are that function's own locals, fresh per call
+				inLoop := false
+				for _, cs := range p.StaticCallSites(fn) {
+					if ci, isI := cs.Instr.(ssa.Instruction); isI && len(loopHeaders(ci.Block())) > 0 {
+						inLoop = true
+					}
+				}
+				if inLoop {
+					n++
+					r.Ok(rule, siteCons(p, in, ord, "go-in-loop-step"), p.InstrPos(in), "the goroutine is started by a function that the loop calls once per connection: its variables are that call's own")
+				}
+				return
+			}
+			mc, ok := g.Call.Value.(*ssa.MakeClosure)
+			var cells []ssa.Value
+			if ok {
+				cells = append(cells, mc.Bindings...)
+			}
+			// a plain `go f(&conn)` hands out the cell as well
+			cells = append(cells, g.Call.Args...)
+			n++
+			cons := siteCons(p, in, ord, "go-in-loop")
+			bad := ""
+			for _, b := range cells {
+				al, ok := b.(*ssa.Alloc)
+				if !ok {
+					continue
+				}
+				pt, ok := al.Type().Underlying().(*types.Pointer)
+				if !ok || !isConnLike(pt.Elem()) {
+					continue
+				}
+				for _, h := range hs {
+					if h == al.Block() || h.Dominates(al.Block()) {
+						continue // a fresh variable per iteration
+					}
+					if al.Referrers() == nil {
+						continue
+					}
+					for _, ref := range *al.Referrers() {
+						if st, ok := ref.(*ssa.Store); ok && st.Addr == ssa.Value(al) && (st.Block() == h || h.Dominates(st.Block())) {
+							bad = "variable " + al.Comment + " (declared at " + p.Pos(al.Pos()) + ", outside the loop) is assigned at " + p.InstrPos(st) + " on every iteration and captured by reference"
+						}
+					}
+				}
+			}
+			if bad != "" {
+				r.Bad(rule, cons, p.InstrPos(in), "%s: the goroutine reads it after the loop has gone on, so sessions started close together all run on the connection accepted last — the earlier clients get no greeting and no replies, and the last one receives several interleaved dialogues", bad)
+			} else {
+				r.Ok(rule, cons, p.InstrPos(in), "the goroutine captures no connection variable that the loop reassigns")
+			}
+		})
+	}
+	return n
+}
